@@ -30,6 +30,28 @@ def make_corpus(tier, seed):
             ops = [(hxb.REQ, b'GET /big HTTP/1.1\r\nHost: h\r\n\r\n'), (hxb.RES, head)] + [(hxb.RES, body[i:i + cs]) for i in range(0, len(body), cs)] + [(hxb.CLOSE, None)]
             cases.append((cid, {'LZMA_MEMLIMIT': 1 << 24}, ops))
             cid += 1
+    # container growth: every list / table / builder of the library is made to grow past its initial capacity, so that the
+    # failure of the *growing* allocation (realloc of the element array) is among the enumerated faults
+    def many(fmt, n):
+        return b''.join(fmt % i for i in range(n))
+    G = []
+    G.append(({}, [(hxb.REQ, b'GET /h HTTP/1.1\r\nHost: h\r\n' + many(b'X-Req-%d: v\r\n', 70) + b'\r\n'),
+                   (hxb.RES, b'HTTP/1.1 200 OK\r\n' + many(b'X-Res-%d: v\r\n', 70) + b'Transfer-Encoding: chunked\r\n\r\n1\r\na\r\n0\r\n' + many(b'T-%d: v\r\n', 40) + b'\r\n'), (hxb.CLOSE, None)]))
+    G.append(({'LOG_LEVEL': 5}, [(hxb.REQ, many(b' GET /p%d HTTP/1.1\r\nHost: h\r\nX-A: 1\r\nX-A: 2\r\nno colon\r\n\r\n', 40)),
+                                  (hxb.RES, many(b'HTTP/1.1 200 OK\r\nX-B: 1\r\nX-B: 2\r\nContent-Length: 1\r\n\r\n%d', 10) * 4), (hxb.CLOSE, None)]))
+    G.append(({'AUTO_DESTROY': 1}, [x for i in range(24) for x in ((hxb.REQ, b'GET /k%d HTTP/1.1\r\nHost: h\r\n\r\n' % i), (hxb.RES, b'HTTP/1.1 200 OK\r\nContent-Length: 0\r\n\r\n'))] + [(hxb.CLOSE, None)]))
+    G.append(({'URLENC_PARSER': 1}, [(hxb.REQ, b'POST /q?' + many(b'a%d=b&', 80) + b'z=1 HTTP/1.1\r\nHost: h\r\nCookie: ' + many(b'c%d=d; ', 80) + b'e=f\r\nContent-Type: application/x-www-form-urlencoded\r\nContent-Length: %d\r\n\r\n' % len(many(b'p%d=q&', 80)) + many(b'p%d=q&', 80)),
+                                     (hxb.RES, b'HTTP/1.1 200 OK\r\nContent-Length: 0\r\n\r\n'), (hxb.CLOSE, None)]))
+    mpb = many(b'--BB\r\nContent-Disposition: form-data; name="n%d"\r\nX-P: 1\r\n folded\r\n\r\nvalue\r\n', 40) + b'--BB\r\nContent-Disposition: form-data; name="f"; filename="a.bin"\r\n\r\n' + b'data\r\n--B' * 30 + b'\r\n--BB--\r\n'
+    mph = b'POST /m HTTP/1.1\r\nHost: h\r\nContent-Type: multipart/form-data; boundary=BB\r\nContent-Length: %d\r\n\r\n' % len(mpb)
+    G.append(({'MULTIPART_PARSER': 1}, [(hxb.REQ, mph + mpb), (hxb.RES, b'HTTP/1.1 200 OK\r\nContent-Length: 0\r\n\r\n'), (hxb.CLOSE, None)]))
+    G.append(({'MULTIPART_PARSER': 1}, [(hxb.REQ, mph)] + [(hxb.REQ, mpb[i:i + 3]) for i in range(0, 600, 3)] + [(hxb.REQ, mpb[600:]), (hxb.RES, b'HTTP/1.1 200 OK\r\nContent-Length: 0\r\n\r\n'), (hxb.CLOSE, None)]))
+    G.append(({}, [(hxb.REQ, b'GET /f HTTP/1.1\r\nHost: h\r\nX-F: a\r\n' + b' more\r\n' * 40 + b'\r\n'), (hxb.RES, b'HTTP/1.1 200 OK\r\nX-F: a\r\n' + b'\tmore\r\n' * 40 + b'Content-Length: 0\r\n\r\n'), (hxb.CLOSE, None)]))
+    longline = b'GET /' + b'a' * 3000 + b' HTTP/1.1\r\nHost: h\r\nX-L: ' + b'b' * 3000 + b'\r\n\r\n'
+    G.append(({}, [(hxb.REQ, longline[i:i + 97]) for i in range(0, len(longline), 97)] + [(hxb.RES, b'HTTP/1.1 200 OK\r\nContent-Length: 0\r\n\r\n'), (hxb.CLOSE, None)]))
+    for cfg, ops in G:
+        cases.append((cid, cfg, ops))
+        cid += 1
     extra_cfg = [{'CFG_COPY': 1, 'TX_HOOKS': 1, 'SECOND_CB': 1}, {'AUTO_DESTROY': 1, 'LOG_LEVEL': 5}, {'REQ_DECOMP': 1, 'DESTROY_DONE': 1}]
     caps = corpus.capture_cases(build.REPO)
     for i, c in enumerate(caps):
